@@ -1,3 +1,4 @@
+#[cfg(not(sonic_rs_verif))]
 use std::{
     borrow::Cow,
     fmt::{self, Debug, Display},
@@ -8,6 +9,17 @@ use std::{
         Arc,
     },
 };
+#[cfg(sonic_rs_verif)]
+use std::{
+    borrow::Cow,
+    fmt::{self, Debug, Display},
+    hash::Hash,
+    str::from_utf8_unchecked,
+    sync::{atomic::Ordering, Arc},
+};
+
+#[cfg(sonic_rs_verif)]
+use crate::util::verif_sync::AtomicPtr;
 
 use faststr::FastStr;
 
